@@ -511,5 +511,6 @@ func init() {
 		for i := 0; i < n; i++ {
 			c02Case(o, rng.Fork())
 		}
+		c02ArgsStream(o, rng.Fork(), n/3)
 	}
 }
